@@ -86,10 +86,18 @@ def retry_loop_rule(ck, u, eng, fname, paths, base_param, total_param):
             # hard error: returned unchanged under res < 0
             nerr += 1
             rv = strip_cast(p.ret)
-            neg = any(c == ('cmp', '<', res, C(0)) for c in p.cond_terms())
+            neg = eng.entails(p, L(res) + 1)
             ck.verdict(rv == res and neg, 'C17.c', '%s:%s:error' % (fname, e.name), e.where(),
                        'negative driver result other than EINTR/EAGAIN is returned unchanged' if rv == res and neg else
                        'loop exit returns %s under {%s}' % (fmt(p.ret), '; '.join(fmt(c) for c in p.cond_terms()[-3:])))
+            # a retry signal must never leave the loop: octets may already have been moved in
+            # earlier iterations, and every caller that sees -EINTR/-EAGAIN starts the request again
+            leak = [nm for nm, v in (('-EINTR', EINTR), ('-EAGAIN', EAGAIN))
+                    if eng.feasible(p.cond_terms() + [('cmp', '==', res, C(v)), ('cmp', '<', h_r, total)])]
+            ck.verdict(not leak, 'C17.c', '%s:%s:no-retry-signal-escapes' % (fname, e.name), e.where(),
+                       'the loop never returns -EINTR/-EAGAIN (it retries them in place, at the current position)' if not leak else
+                       '%s from the driver is returned out of the loop after earlier iterations may have moved octets; callers '
+                       'retry the whole request on it, so those octets are transferred twice' % '/'.join(leak))
             continue
         # loopback: either retry (counter unchanged) or progress (counter reduced by result)
         r_after = p.mem.get(rk, h_r)
